@@ -48,6 +48,38 @@ TECHNIQUE = ('decision tables by path enumeration over canonical atoms (locals n
              '(must-pass) analysis over the Resolver call graph; who-may-call; def-use origin flows.  No repository code is interpreted on values.')
 
 
+# The vocabulary the reference is written in: the operations of the two classes as the design read them.  A method that is
+# not in it is a helper somebody extracted later; its calls are expanded in place (c10_sym.inline_helpers) before paths are taken.
+VOCAB = {
+    H: frozenset({'__init__', '_check_version', '_do_dependency', '_do_dependency_cache', '_do_existing_subproject', '_do_subproject',
+                  '_get_cached_dep', '_get_candidates', '_get_subproject', '_get_subproject_dep', '_get_subproject_variable',
+                  '_handle_featurenew_dependencies', '_log_found', '_notfound_dependency', '_subproject_impl', '_verify_fallback_consistency',
+                  'lookup', 'set_fallback'}),
+    R: frozenset({'__post_init__', '_download', '_get_file', '_get_file_internal', '_get_git', '_get_hg', '_get_svn', '_resolve', 'add_wrap',
+                  'apply_diff_files', 'apply_patch', 'check_can_download', 'check_hash', 'copy_tree', 'find_dep_provider', 'find_program_provider',
+                  'get_cargo_lock', 'get_data', 'get_data_with_backoff', 'get_directory', 'get_from_wrapdb', 'get_netrc_credentials', 'get_varname',
+                  'hash_file', 'is_git_full_commit_id', 'load_and_merge', 'load_netrc', 'load_wrapdb', 'load_wraps', 'merge_wraps', 'resolve',
+                  'resolve_git_submodule', 'validate'}),
+}
+_INLINED: T.Dict[T.Any, T.Tuple[T.Any, T.Any]] = {}
+
+
+def _fn(mod: Module, qn: str) -> T.Any:
+    """the function `Cls.name`, with calls of extracted helpers of Cls expanded"""
+    fn = mod.func(qn)
+    cls = qn.split('.')[0]
+    if cls not in VOCAB or qn.count('.') != 1:
+        return fn
+    key = (id(mod), qn)
+    if key not in _INLINED:
+        if len(_INLINED) > 200:
+            _INLINED.clear()
+        meths = mod.methods(cls)
+        new = S.inline_helpers(fn, meths, VOCAB[cls]) if any(m not in VOCAB[cls] for m in meths) else fn
+        _INLINED[key] = (mod, new)
+    return _INLINED[key][1]
+
+
 def _truth(s: str) -> Atom:
     return Atom('truth', (s,))
 
@@ -77,8 +109,8 @@ def _candidate_kinds(mod: Module) -> T.Dict[str, str]:
     for anchor in ('_get_cached_dep', '_get_subproject_dep'):
         mod.func(f'{H}.{anchor}')
     out: T.Dict[str, str] = {}
-    for name, fn in mod.methods(H).items():
-        called = {call_method(c) for c in calls_in(fn)}
+    for name in mod.methods(H):
+        called = {call_method(c) for c in calls_in(_fn(mod, f'{H}.{name}'))}
         if 'do_subproject' in called:
             out[name] = 'configure'
         elif 'find_external_dependency' in called:
@@ -93,32 +125,52 @@ def _candidate_kinds(mod: Module) -> T.Dict[str, str]:
 def r1a(ctx: RuleCtx) -> None:
     mod = ctx.repo.module(DF)
     kinds = _candidate_kinds(mod)
-    fn = mod.func(f'{H}._get_candidates')
+    fn = _fn(mod, f'{H}._get_candidates')
     tab = symtable(fn, '_get_candidates')
     sem = {_truth('self.subproject_name'): 'subp', _truth('self.forcefallback'): 'force'}
     used: T.Set[str] = set()
 
+    def one(pair: ast.AST, var: T.Optional[str]) -> T.Tuple[str, str]:
+        if not (isinstance(pair, ast.Tuple) and len(pair.elts) == 2):
+            raise Undecided(f'_get_candidates: candidate is not a (function, name) pair: {short(pair)}')
+        m = attr_chain(pair.elts[0]) or ''
+        kind = kinds.get(m[5:]) if m.startswith('self.') else None
+        if kind is None:
+            raise Undecided(f'_get_candidates: cannot classify candidate function {m}')
+        used.add(kind)
+        a = norm(pair.elts[1])
+        if var is not None and a == var:
+            a = 'each(self.names)'
+        return (kind, {'each(self.names)': 'each name', 'self.subproject_name': 'subproject'}.get(a, a))
+
+    def items(e: ast.AST) -> T.List[T.Tuple[str, str]]:
+        """the candidates a list-valued expression contributes, in order (display, comprehension over self.names, +, list())"""
+        if isinstance(e, (ast.List, ast.Tuple)):
+            return [one(x, None) for x in e.elts]
+        if isinstance(e, (ast.ListComp, ast.GeneratorExp)) and len(e.generators) == 1 and not e.generators[0].ifs \
+                and isinstance(e.generators[0].target, ast.Name):
+            it = norm(e.generators[0].iter)
+            k, a = one(e.elt, e.generators[0].target.id)
+            return [(k, a if it == 'self.names' or a != 'each name' else f'each({it})')]
+        if isinstance(e, ast.BinOp) and isinstance(e.op, ast.Add):
+            return items(e.left) + items(e.right)
+        if isinstance(e, ast.Call) and call_name(e) == 'list' and len(e.args) == 1:
+            return items(e.args[0])
+        raise Undecided(f'_get_candidates: cannot read the candidates of {short(e)}')
+
     def got(r: SymRow) -> T.Any:
         if r.skipped():
             return None
-        if r.path.outcome != 'return' or not isinstance(r.path.value, ast.Name) or r.outcome != ('return', '[]'):
-            raise Undecided(f'_get_candidates: result is not a list built by append: {r.outcome}')
+        if r.path.outcome != 'return' or not isinstance(r.path.value, ast.Name):
+            raise Undecided(f'_get_candidates: result is not a named list: {r.outcome}')
         lst = r.path.value.id
-        seq: T.List[T.Any] = []
+        seq: T.List[T.Any] = items(r.sp.value())      # what the list was bound to (display / comprehension / `+=` chain)
+        grown = isinstance(r.sp.value(), ast.BinOp)
         for orig, symc, _ in r.calls():
             if isinstance(orig.func, ast.Attribute) and isinstance(orig.func.value, ast.Name) and orig.func.value.id == lst:
-                if orig.func.attr != 'append' or len(symc.args) != 1:
+                if grown or orig.func.attr not in ('append', 'extend') or len(symc.args) != 1:
                     raise Undecided(f'_get_candidates: list changed by {short(orig)}')
-                arg = symc.args[0]
-                if not (isinstance(arg, ast.Tuple) and len(arg.elts) == 2):
-                    raise Undecided(f'_get_candidates: candidate is not a (function, name) pair: {short(arg)}')
-                m = attr_chain(arg.elts[0]) or ''
-                kind = kinds.get(m[5:]) if m.startswith('self.') else None
-                if kind is None:
-                    raise Undecided(f'_get_candidates: cannot classify candidate function {m}')
-                used.add(kind)
-                a = norm(arg.elts[1])
-                seq.append((kind, {'each(self.names)': 'each name', 'self.subproject_name': 'subproject'}.get(a, a)))
+                seq.extend([one(symc.args[0], None)] if orig.func.attr == 'append' else items(symc.args[0]))
         if r.sp.left_early():
             seq.append(('a loop over the names is left before all names were added',))
         return tuple(seq)
@@ -144,7 +196,7 @@ def r1b(ctx: RuleCtx) -> None:
     mod = ctx.repo.module(DF)
     # _do_subproject
     qn = f'{H}._do_subproject'
-    fn = mod.func(qn)
+    fn = _fn(mod, qn)
     tab = symtable(fn, qn)
     sem = {_truth('self.forcefallback'): 'force', _truth('self.nofallback'): 'nofb'}
 
@@ -172,7 +224,7 @@ def r1b(ctx: RuleCtx) -> None:
 
     # _do_dependency: a dependency object only when found, else None (so that the lookup goes on)
     qn = f'{H}._do_dependency'
-    fn = mod.func(qn)
+    fn = _fn(mod, qn)
     tab = symtable(fn, qn)
 
     def cls_sys(a: Atom, e: ast.AST) -> T.Optional[str]:
@@ -195,7 +247,7 @@ def r1b(ctx: RuleCtx) -> None:
 
     # _do_existing_subproject
     qn = f'{H}._do_existing_subproject'
-    fn = mod.func(qn)
+    fn = _fn(mod, qn)
     tab = symtable(fn, qn)
     sem3 = {_truth('ARG2'): 'name', _truth('self._get_subproject(ARG2)'): 'configured'}
 
@@ -210,7 +262,7 @@ def r1b(ctx: RuleCtx) -> None:
 
     # _get_subproject: only a *found* subproject counts as configured
     qn = f'{H}._get_subproject'
-    fn = mod.func(qn)
+    fn = _fn(mod, qn)
     tab = symtable(fn, qn)
     subx = 'self.interpreter.subprojects[self.for_machine].get(ARG1)'
     sem4 = {_truth(subx): 'known', _truth(subx + '.found()'): 'found'}
@@ -238,7 +290,7 @@ def _is_override_dep(e: ast.AST) -> bool:
 def r1c(ctx: RuleCtx) -> None:
     mod = ctx.repo.module(DF)
     qn = f'{H}._get_cached_dep'
-    fn = mod.func(qn)
+    fn = _fn(mod, qn)
     tab = symtable(fn, qn)
 
     def cls(a: Atom, e: ast.AST) -> T.Optional[str]:
@@ -345,7 +397,7 @@ def _candidate_loop(fn: ast.AST) -> ast.For:
 def r1d(ctx: RuleCtx) -> None:
     mod = ctx.repo.module(DF)
     qn = f'{H}.lookup'
-    fn = mod.func(qn)
+    fn = _fn(mod, qn)
     loop = _candidate_loop(fn)
     pre = fn.body[:fn.body.index(loop)]
     # reference (dependency.yaml / Subprojects.md: --wrap-mode=forcefallback, --force-fallback-for=<dep or subproject>; the
@@ -403,7 +455,7 @@ def r1d(ctx: RuleCtx) -> None:
 def r1e(ctx: RuleCtx) -> None:
     mod = ctx.repo.module(DF)
     qn = f'{H}.lookup'
-    fn = mod.func(qn)
+    fn = _fn(mod, qn)
     loop = _candidate_loop(fn)
     pre = fn.body[:fn.body.index(loop)]
     tab = symtable(fn, qn + ':implicit fallback', pre)
@@ -447,7 +499,7 @@ def r1e(ctx: RuleCtx) -> None:
 def r1f(ctx: RuleCtx) -> None:
     mod = ctx.repo.module(DF)
     qn = f'{H}.lookup'
-    fn = mod.func(qn)
+    fn = _fn(mod, qn)
     loop = _candidate_loop(fn)
     tab = symtable(fn, qn + ':candidate loop', since=lambda sp: sp.first_iter(loop))
     cand = 'each(enumerate(self._get_candidates()))'
@@ -508,6 +560,11 @@ def r1f(ctx: RuleCtx) -> None:
                           and val.args and norm(val.args[0]) in calls and isinstance(kwarg(val, 'explicit'), ast.Constant)
                           and kwarg(val, 'explicit').value is False)  # type: ignore[union-attr]
                     inst.append('implicit override installed' if ok else 'override written as ' + short(st))
+            if not inst:
+                opaque = [short(o) for o, sc, _ in r.calls() if S.self_method_called(o) and S.self_method_called(o) not in VOCAB[H]
+                          and any(norm(x) in calls for x in list(sc.args) + [k.value for k in sc.keywords])]
+                if opaque:
+                    raise Undecided(f'{qn}: the found dependency is handed to {opaque}, which could not be expanded; the implicit override may be installed there')
             if any(l is not loop for l in r.sp.left_early(r.start)):      # (the candidate loop itself is left by this return)
                 inst.append('the loop over the names is left before every name was handled')
             return 'candidate result; ' + ('; '.join(inst) if inst else 'overrides untouched')
@@ -530,7 +587,7 @@ def r1f(ctx: RuleCtx) -> None:
 def r1g(ctx: RuleCtx) -> None:
     mod = ctx.repo.module(DF)
     qn = f'{H}._get_subproject_dep'
-    fn = mod.func(qn)
+    fn = _fn(mod, qn)
     tab = symtable(fn, qn)
     CACHED = 'self._get_cached_dep(each(self.names), ARG3)'
     WRAPVAR = 'self.wrap_resolver.get_varname(ARG1, each(self.names))'
@@ -606,12 +663,12 @@ def r1g(ctx: RuleCtx) -> None:
 
     # the pieces the table relies on
     qn2 = f'{H}._notfound_dependency'
-    fn2 = mod.func(qn2)
+    fn2 = _fn(mod, qn2)
     outs = {sp.outcome()[0] + ' ' + (call_name(sp.value()) or '?') for sp in sympaths(fn2)}  # type: ignore[arg-type]
     ctx.require(outs == {'return NotFoundDependency'}, '_notfound_dependency always builds a NotFoundDependency', mod, qn2, fn2,
                 f'_notfound_dependency leaves by {sorted(outs)}')
     qn3 = f'{H}._check_version'
-    fn3 = mod.func(qn3)
+    fn3 = _fn(mod, qn3)
     tab3 = symtable(fn3, qn3, bool_returns=True)
     sem3 = {_truth('ARG1'): 'constraint', Atom('cmp', ('eq', 'ARG2', "'undefined'")): 'undefined',
             _truth('version_compare_many(ARG2, ARG1)[0]'): 'all hold'}
@@ -626,7 +683,7 @@ def r1g(ctx: RuleCtx) -> None:
 def r2a(ctx: RuleCtx) -> None:
     mod = ctx.repo.module(WRAP)
     qn = f'{R}._get_file_internal'
-    fn = mod.func(qn)
+    fn = _fn(mod, qn)
     url_atom = Atom('in', ("ARG1 + '_url'", 'self.wrap.values'))
     n = 0
     seen: T.Set[str] = set()
@@ -665,7 +722,7 @@ def r2a(ctx: RuleCtx) -> None:
 def r2b(ctx: RuleCtx) -> None:
     mod = ctx.repo.module(WRAP)
     qn = f'{R}.check_hash'
-    fn = mod.func(qn)
+    fn = _fn(mod, qn)
     DIG, EXPS = 'self.hash_file(ARG2)', ("self.wrap.get(ARG1 + '_hash').lower()", "self.wrap.get(ARG1 + '_hash')")
     recorded = Atom('in', ("ARG1 + '_hash'", 'self.wrap.values'))
     n_acc = n_rej = 0
@@ -776,7 +833,7 @@ def _paired_writes(ctx: RuleCtx, mod: Module, fn: ast.AST, qn: str) -> T.Tuple[T
 def r2c(ctx: RuleCtx) -> None:
     mod = ctx.repo.module(WRAP)
     qn = f'{R}._download'
-    fn = mod.func(qn)
+    fn = _fn(mod, qn)
     EXPS = {"self.wrap.get(ARG1 + '_hash').lower()", "self.wrap.get(ARG1 + '_hash')"}
     n_pub = n_bad = 0
     seen: T.Set[str] = set()
@@ -835,7 +892,7 @@ def r2c(ctx: RuleCtx) -> None:
     ctx.floor('publication sites on paths of _download', n_pub, 1)
     ctx.floor('digest-mismatch paths of _download', n_bad, 1)
     # the digest is the hash of what was written
-    gb = mod.func(f'{R}.get_data_with_backoff')
+    gb = _fn(mod, f'{R}.get_data_with_backoff')
     for out in sorted({sp.outcome() for sp in sympaths(gb) if sp.path.outcome == 'return'}):
         if out[1] in ('self.get_data(ARG1)', '(self.get_data(ARG1)[0], self.get_data(ARG1)[1])'):
             ctx.ok('get_data_with_backoff returns (digest, file) of get_data(url) unchanged')
@@ -1060,7 +1117,7 @@ def r3(ctx: RuleCtx) -> None:
     ctx.note(f'guards in: {sorted(net.guard_sites)}')
     # the guard itself
     qn = f'{R}.{GUARD}'
-    g = mod.func(qn)
+    g = _fn(mod, qn)
     ND = (Atom('is', ('self.wrap_mode', 'WrapMode.nodownload')), tables.canon(_parse('self.wrap_mode == WrapMode.nodownload'), True)[0])
     n_pass = 0
     for sp in sympaths(g):
@@ -1090,37 +1147,74 @@ def r3(ctx: RuleCtx) -> None:
 STEPS = ('apply_patch', 'apply_diff_files')
 
 
+def _cleanup_problems(cfg: CFG, n: Node) -> T.List[str]:
+    """why a failure of the statement at `n` does not end in `remove self.dirname; re-raise` inside this function ([] = it does)"""
+    rm = cfg.nodes_with_call(lambda c: call_method(c) in ('windows_proof_rmtree', 'rmtree') and bool(c.args) and attr_chain(c.args[0]) == 'self.dirname')
+
+    def broad(h: Node) -> bool:
+        return h.ast.type is None or attr_chain(h.ast.type) in ('Exception', 'BaseException')  # type: ignore[union-attr]
+    heads = [cfg.nodes[b] for b, lab in cfg.succ[n.id] if lab == 'exc' and cfg.nodes[b].kind == 'handler']
+    if not any(broad(h) for h in heads):
+        return ['is not inside a try that catches Exception: a failing step leaves the freshly unpacked directory behind']
+
+    def within_scope(a: Node, b: Node, lab: T.Any) -> bool:
+        # an exception edge straight to the exit next to one into an `except Exception` models BaseException only (not decided)
+        return not (lab == 'exc' and b.id == cfg.exit_raise.id and any(
+            l2 == 'exc' and cfg.nodes[c2].kind == 'handler' and broad(cfg.nodes[c2]) for c2, l2 in cfg.succ[a.id]))
+    problems = []
+    for h in heads:
+        name = f'handler `except {short(h.ast.type) if h.ast.type is not None else ""}`'  # type: ignore[union-attr]
+        esc = cfg.reachable([h], avoid=rm, edge_ok=within_scope)
+        if cfg.exit_raise.id in esc or cfg.exit_return.id in esc:
+            problems.append(f'{name} can be left without removing self.dirname')
+        elif cfg.exit_return.id in cfg.reachable([h]):
+            problems.append(f'{name} swallows the failure instead of re-raising')
+    return problems
+
+
 def r4(ctx: RuleCtx) -> None:
     mod = ctx.repo.module(WRAP)
     qn = f'{R}._resolve'
-    fn = mod.func(qn)
-    cfg = CFG(fn)
-    steps = cfg.nodes_with_call(lambda c: S.self_method_called(c) in STEPS)
-    rm = cfg.nodes_with_call(lambda c: call_method(c) in ('windows_proof_rmtree', 'rmtree') and bool(c.args) and attr_chain(c.args[0]) == 'self.dirname')
-    n_steps = 0
-    for n in steps:
-        for c in [c for c in walk_no_nested(n.expr()) if isinstance(c, ast.Call) and S.self_method_called(c) in STEPS]:  # type: ignore[arg-type]
-            n_steps += 1
-            heads = [cfg.nodes[b] for b, lab in cfg.succ[n.id] if lab == 'exc' and cfg.nodes[b].kind == 'handler']
-            broad = [h for h in heads if h.ast.type is None or attr_chain(h.ast.type) in ('Exception', 'BaseException')]  # type: ignore[union-attr]
-            if not broad:
-                ctx.violation(mod, qn, c, f'{short(c)} is not inside a try that catches Exception: a failing step leaves the freshly unpacked directory behind', c)
-                continue
-            problems = []
+    meths = mod.methods(R)
+    cfgs: T.Dict[str, CFG] = {}
+    leaves: T.Dict[int, T.Tuple[str, ast.Call]] = {}
+    Open = T.List[T.Tuple[T.List[str], ast.Call, str, T.List[str]]]      # call chain, step call, function of the step, why unprotected
 
-            def within_scope(a: Node, b: Node, lab: T.Any) -> bool:
-                # an exception edge straight to the exit next to one into an `except Exception` models BaseException only (not decided)
-                return not (lab == 'exc' and b.id == cfg.exit_raise.id and any(
-                    l2 == 'exc' and cfg.nodes[c2].kind == 'handler' and (cfg.nodes[c2].ast.type is None or attr_chain(cfg.nodes[c2].ast.type) in ('Exception', 'BaseException'))  # type: ignore[union-attr]
-                    for c2, l2 in cfg.succ[a.id]))
-            for h in heads:
-                esc = cfg.reachable([h], avoid=rm, edge_ok=within_scope)
-                if cfg.exit_raise.id in esc or cfg.exit_return.id in esc:
-                    problems.append(f'handler `except {short(h.ast.type) if h.ast.type is not None else ""}` can be left without removing self.dirname')  # type: ignore[union-attr]
-                elif cfg.exit_return.id in cfg.reachable([h]):
-                    problems.append(f'handler `except {short(h.ast.type) if h.ast.type is not None else ""}` swallows the failure instead of re-raising')  # type: ignore[union-attr]
-            ctx.require(not problems, f'{short(c)}: failure -> remove self.dirname -> re-raise', mod, qn, c, f'{short(c)}: ' + '; '.join(problems), c)
-    ctx.floor('patch/diff steps in _resolve', n_steps, 2)
+    def unprotected(m: str, busy: T.FrozenSet[str]) -> Open:
+        """patch/diff steps that a call of self.<m>() can run without a cleanup handler of <m> (or of a callee on the way) around them"""
+        if m not in cfgs:
+            cfgs[m] = CFG(meths[m])
+        cfg = cfgs[m]
+        out: Open = []
+        for n in cfg.nodes:
+            e = n.expr()
+            if e is None:
+                continue
+            for c in [c for c in walk_no_nested(e) if isinstance(c, ast.Call)]:
+                k = S.self_method_called(c)
+                if k in STEPS:
+                    leaves[id(c)] = (m, c)
+                    inner: Open = [([], c, m, [])]
+                elif k in meths and k != m and k not in busy:
+                    inner = unprotected(k, busy | {m})
+                else:
+                    continue
+                if not inner:
+                    continue
+                problems = _cleanup_problems(cfg, n)
+                if problems:
+                    out.extend(([m] + ch, leaf, where, why or problems) for ch, leaf, where, why in inner)
+        return out
+    bad = {id(leaf): (chain, where, why) for chain, leaf, where, why in unprotected('_resolve', frozenset())}
+    for lid, (where, c) in leaves.items():
+        if lid in bad:
+            chain, _, why = bad[lid]
+            ctx.violation(mod, f'{R}.{where}', c, f'{short(c)} (reached by {" -> ".join(chain)}) ' + '; '.join(why), c)
+        else:
+            ctx.ok(f'{where}: {short(c)}: failure -> remove self.dirname -> re-raise, on every call chain from _resolve')
+    ctx.floor('patch/diff steps reachable from _resolve', len(leaves), 2)
+    fn = _fn(mod, qn)
+    cfg = CFG(fn)
     # observation (not armed, outside the clause "a failed patch/diff step"): acquisition steps that populate self.dirname outside the cleanup
     acq = cfg.nodes_with_call(lambda c: S.self_method_called(c) in ('_get_file', '_get_git', '_get_hg', '_get_svn', 'copy_tree'))
     loose = [short(n.expr(), 50) for n in acq if not any(lab == 'exc' and cfg.nodes[b].kind == 'handler' for b, lab in cfg.succ[n.id])]
@@ -1129,15 +1223,10 @@ def r4(ctx: RuleCtx) -> None:
                  'leaves a partly populated self.dirname behind (no cleanup handler), and a later run accepts it through the first has_buildfile() test when the '
                  'build file was already unpacked.  Witness (probe, outside the check): tar with foo/meson.build, foo/a, foo/a/b + matching source_hash + patch_directory: '
                  "run 1 WrapException 'failed to unpack archive', run 2 Resolver.resolve('foo') == ('subprojects/foo', 'meson'), overlay never applied")
-    # who may call the steps
-    n_calls = 0
-    for name, m in mod.methods(R).items():
-        for c in calls_in(m, nested=True):
-            if S.self_method_called(c) in STEPS:
-                n_calls += 1
-                ctx.require(name == '_resolve', f'{name}: {short(c)} is inside the cleanup try of _resolve', mod, f'{R}.{name}', c,
-                            f'{short(c)} is called from {name}, outside the try of _resolve whose handler removes the directory', c)
-    ctx.floor('calls of apply_patch/apply_diff_files in Resolver', n_calls, 2)
+    others = sorted(f'{name}' for name, m in meths.items() for c in calls_in(m, nested=True)
+                    if S.self_method_called(c) in STEPS and id(c) not in leaves)
+    if others:
+        ctx.note(f'patch/diff steps in Resolver methods that _resolve does not reach (not part of the clause): {others}')
     # every return of _resolve is gated by has_buildfile()
     tests: T.Dict[int, bool] = {}
     for n in cfg.nodes:
